@@ -40,7 +40,7 @@ func (i *In) parseHash(
 			return err
 		}
 
-		if nextT.IsTargetIdentifier("}") {
+		if nextT == nil || nextT.IsTargetIdentifier("}") {
 			break
 		}
 
